@@ -176,7 +176,11 @@ def regenerate_gen():
     os.makedirs(tmp)
     rc, out = sh([tool, REPO, tmp], timeout=600, env=GOENV)
     theories = os.path.join(COQ, "theories")
-    expected = sorted(f for f in os.listdir(theories) if re.match(r"Gen[A-Z0-9]\w*\.v$", f) and not f.startswith("GenTie"))
+    # the units that were generated when the index was last committed: one of them missing now is a translation failure
+    try:
+        expected = sorted(json.load(open(os.path.join(COQ, "gotrans_index.json"))).keys())
+    except (OSError, ValueError):
+        expected = []
     produced = sorted(f for f in os.listdir(tmp) if f.endswith(".v"))
     problems = []
     if rc != 0:
